@@ -364,6 +364,21 @@ chain_decls! {
     gen = |r| gen_int(r, -50, 50, i32::MIN as i128, i32::MAX as i128) as i32;
     text = |r| num_text(r, -50, 50);
 
+    #[nutype(sanitize(with = |x: i32| x.wrapping_abs()),
+        derive(Debug, Clone, Copy, PartialEq, Display, FromStr, From, Into, AsRef, Deref, Serialize, Deserialize, Arbitrary))]
+    struct AbsI32(i32);
+    family = "integer"; validated = false; arbitrary = true; default = false;
+    gen = |r| gen_int(r, -5, 5, i32::MIN as i128, i32::MAX as i128) as i32;
+    text = |r| num_text(r, -5, 5);
+
+    // idempotent custom sanitizer whose result can fall out of the valid set
+    #[nutype(sanitize(with = |n: u32| n - n % 10), validate(greater = 10),
+        derive(Debug, Clone, Copy, PartialEq, Display, FromStr, TryFrom, Into, AsRef, Deref, Serialize, Deserialize))]
+    struct RoundTens(u32);
+    family = "integer"; validated = true; arbitrary = false; default = false;
+    gen = |r| gen_int(r, 0, 40, 0, u32::MAX as i128) as u32;
+    text = |r| num_text(r, 0, 40);
+
     // ------------------------------------------------------------------ floats
     #[nutype(validate(finite, greater_or_equal = 0.0, less_or_equal = 1.0), default = 0.5,
         derive(Debug, Clone, Copy, PartialEq, Eq, PartialOrd, Ord, Display, FromStr, TryFrom, Into, AsRef, Deref, Serialize, Deserialize, Default, Arbitrary))]
@@ -385,6 +400,14 @@ chain_decls! {
     family = "float"; validated = true; arbitrary = true; default = false;
     gen = |r| gen_f64(r, 0.0, 1e9);
     text = |r| float_text(r, 0.0, 1e9);
+
+    // idempotent custom sanitizer (round to cents) whose result can fall out of the valid set
+    #[nutype(sanitize(with = |x: f64| (x * 100.0).round() / 100.0), validate(finite, greater = 0.0, less = 1000.0),
+        derive(Debug, Clone, Copy, PartialEq, Display, FromStr, TryFrom, Into, AsRef, Deref, Serialize, Deserialize))]
+    struct Cents(f64);
+    family = "float"; validated = true; arbitrary = false; default = false;
+    gen = |r| if r.chance(1, 3) { gen_f64(r, 0.0, 0.02) } else { gen_f64(r, 0.0, 1000.0) };
+    text = |r| if r.chance(1, 3) { format!("0.00{}", r.below(10)) } else { float_text(r, 0.0, 1000.0) };
 
     #[nutype(sanitize(with = |x: f64| x.abs()),
         derive(Debug, Clone, Copy, PartialEq, Display, FromStr, From, Into, AsRef, Deref, Serialize, Deserialize, Arbitrary))]
